@@ -108,7 +108,8 @@ theorem hop_step (fuel : Nat) (st : St) (pl : Pl) (src dst : Ip) (n i : Nat) (in
   have hstep1 : ifaceRecv (fuel + 5) st n i f = routerRecv (fuel + 3 + 1) (st.emit (.rx n i f.id f.ttl)) n i f.dec := by
     simp only [ifaceRecv, hn', hi', h1, if_false, hk, hra, if_true]
   rw [hstep1]
-  rw [C08_router_transit (fuel + 3) (st.emit (.rx n i f.id f.ttl)) n i f.dec nd ifc hn' hi' hon hown]
+  rw [C08_router_transit (fuel + 3) (st.emit (.rx n i f.id f.ttl)) n i f.dec nd ifc hn' hi' hon hown
+    (fun _ _ => ⟨by show f.dstMac ≠ bcastMac; rw [hmac]; exact hb, by omega⟩)]
   rw [hlearn]
   subst hR
   have hsend : ∀ X : St, X.nodes = st.nodes → ∀ g : Frame,
@@ -332,7 +333,7 @@ theorem host_echo_req (fuel : Nat) (st : St) (b : Nat) (nd : Node) (ifc : Iface)
                       (.echoRep ident), f)) := by
   have hi : st.iface? b 0 = some ifc := by
     unfold St.iface?; unfold St.node? at hn; rw [hn]; simp [hifs]
-  simp only [hostRecv, hn, hi, hon, if_true, host_learn_known st b nd f.srcIp f.srcMac es hn hes, hpl, hd, bne_self_eq_false,
+  simp only [hostRecv, portClosed, Bool.false_eq_true, if_false, hn, hi, hon, if_true, host_learn_known st b nd f.srcIp f.srcMac es hn hes, hpl, hd, bne_self_eq_false,
     Bool.false_eq_true, if_false]
   rfl
 
@@ -344,7 +345,7 @@ theorem host_echo_rep (fuel : Nat) (st : St) (a : Nat) (nd : Node) (ifc : Iface)
         (fun nd => { nd with replies := bumpReply nd.replies ident }), f) := by
   have hi : st.iface? a 0 = some ifc := by
     unfold St.iface?; unfold St.node? at hn; rw [hn]; simp [hifs]
-  simp only [hostRecv, hn, hi, hon, if_true, host_learn_known st a nd f.srcIp f.srcMac es hn hes, hpl]
+  simp only [hostRecv, portClosed, Bool.false_eq_true, if_false, hn, hi, hon, if_true, host_learn_known st a nd f.srcIp f.srcMac es hn hes, hpl]
 
 /-- the server side of the service (`NTPServer.receive`): answer to the frame's source address. -/
 theorem host_data_req (fuel : Nat) (st : St) (b : Nat) (nd : Node) (ifc : Iface) (f : Frame) (es : ArpEntry)
@@ -354,7 +355,7 @@ theorem host_data_req (fuel : Nat) (st : St) (b : Nat) (nd : Node) (ifc : Iface)
       (sendIcmp fuel (st.emit (.sw b f.id f.dstIp (f.dstMac == bcastMac))) b f.srcIp .dataRep, f) := by
   have hi : st.iface? b 0 = some ifc := by
     unfold St.iface?; unfold St.node? at hn; rw [hn]; simp [hifs]
-  simp only [hostRecv, hn, hi, hon, if_true, host_learn_known st b nd f.srcIp f.srcMac es hn hes, hpl, hflag]
+  simp only [hostRecv, portClosed, Bool.false_eq_true, if_false, hn, hi, hon, if_true, host_learn_known st b nd f.srcIp f.srcMac es hn hes, hpl, hflag]
 
 /-- the client side (`NTPClient.receive`): the reply is recorded. -/
 theorem host_data_rep (fuel : Nat) (st : St) (a : Nat) (nd : Node) (ifc : Iface) (f : Frame) (es : ArpEntry)
@@ -364,7 +365,7 @@ theorem host_data_rep (fuel : Nat) (st : St) (a : Nat) (nd : Node) (ifc : Iface)
       ((st.emit (.sw a f.id f.dstIp (f.dstMac == bcastMac))).modNode a (fun nd => { nd with served := true }), f) := by
   have hi : st.iface? a 0 = some ifc := by
     unfold St.iface?; unfold St.node? at hn; rw [hn]; simp [hifs]
-  simp only [hostRecv, hn, hi, hon, if_true, host_learn_known st a nd f.srcIp f.srcMac es hn hes, hpl, hflag,
+  simp only [hostRecv, portClosed, Bool.false_eq_true, if_false, hn, hi, hon, if_true, host_learn_known st a nd f.srcIp f.srcMac es hn hes, hpl, hflag,
     Bool.false_eq_true, if_false]
 
 theorem replyCount_bump (l : List (Nat × Nat)) (ident : Nat) (h : replyCount l ident = none) :
@@ -640,6 +641,11 @@ example : (requestService (0 + 11 + 11 + 8) lvSt 0 lvB).2 = true :=
     lvWarmA lvWarmB (by decide) (by decide) (by decide) (lvPathAB _ (by decide) (by decide)) (lvPathBA _ (by decide) (by decide))
     (by decide) (by decide)
 
+/-- a frame ENTERING THE FIREWALL ON ITS DMZ PORT (arrival port 2) is a transit frame, too, when the destination's cache entry
+names an outbound port whose list permits (`_process_dmz_outbound_frame`): `Hop` / `journey` / both liveness theorems cover
+paths through the DMZ port; remove the external-outbound permit and it is not. -/
+example : transitOk lvFw 2 (.echoReq 0) lvB = true := by decide
+example : transitOk { lvFw with fw := some (everyList.filter (· != (1, 1))) } 2 (.echoReq 0) lvB = false := by decide
 /-- "every device on the path permits" is a real precondition: without the router's permit rule `transitOk` fails … -/
 example : transitOk { lvR with flag := false } 0 .dataReq lvB = false := by decide
 /-- … and so it does when the firewall's external-outbound list does not permit ICMP. -/
